@@ -9,12 +9,12 @@ ENV = dict(os.environ, GOFLAGS='-mod=mod', GOPROXY='off', GOSUMDB='off', GOTOOLC
 def sh(cmd, cwd=None, timeout=3600):
     p = subprocess.run(cmd, shell=True, cwd=cwd, env=ENV, stdout=subprocess.PIPE, stderr=subprocess.STDOUT, timeout=timeout)
     return p.returncode, p.stdout.decode(errors='replace')
-ap = argparse.ArgumentParser(); ap.add_argument('id'); ap.add_argument('variant'); ap.add_argument('--props')
+ap = argparse.ArgumentParser(); ap.add_argument('id'); ap.add_argument('variant'); ap.add_argument('--props'); ap.add_argument('--src', default='/tmp/refac')
 a = ap.parse_args()
 allp = ['C%02d' % i for i in range(1, 21)]
 props = a.props.split(',') if a.props else allp
 kept = f'/verif/refactored/{a.id}-{a.variant}'
-patch = f'/tmp/refac/{a.id}.{a.variant}.patch.diff'; metaf = f'/tmp/refac/{a.id}.{a.variant}.meta.json'
+patch = f'{a.src}/{a.id}.{a.variant}.patch.diff'; metaf = f'{a.src}/{a.id}.{a.variant}.meta.json'
 if not os.path.exists(patch):
     patch, metaf = kept + '/patch.diff', kept + '/meta.json'
 base = tempfile.mkdtemp(prefix='rf.', dir='/tmp'); w = base + '/with'
